@@ -588,6 +588,11 @@ def run_batch(ck, be, designs, stats, ncycles, nstores, tie=True, keep=False):
                                                 'required message': d['must_reject'], 'stage': j.stage, 'info': str(j.info)[:300],
                                                 'text': [l.strip() for l in (j.text or '').split('\n') if ' = ' in l][:6]})
       if j.stage == 'rejected': continue
+    if d.get('must_translate') and j.stage == 'rejected':
+      # a legal design (its PyMTL simulation runs) that the translator refuses
+      V.report(j, 'rejected-translatable', {'what': 'a design that PyMTL simulates is refused by the translator', 'info': str(j.info)[:400]})
+      if d.get('finding'): stats['finding-reproduced:' + d['finding']] = stats.get('finding-reproduced:' + d['finding'], 0) + 1
+      continue
     if j.stage == 'syntax':
       V.report(j, 'syntax-invalid', {'what': 'the emitted text is not accepted by the IEEE 1800-2017 grammar of the emitted subset',
                                      'parser': j.info, 'oracle': 'c03_svparse (written from IEEE 1800-2017 Annex A)'})
